@@ -56,6 +56,7 @@ Complete == (l = Len(Trace) + 1) => PrintT(<<"TRACE-COMPLETE", Len(Trace)>>)
 I_SingleFlight      == O!P_SingleFlight(obs)
 I_BurstCostsOne     == O!P_BurstCostsOne(obs)
 I_NoEarlyRelease    == O!P_NoEarlyRelease(obs)
+I_NoUntimelyPublish == O!P_NoUntimelyPublish(obs)
 I_HitServed         == O!P_HitServed(obs)
 I_LabelTruth        == O!P_LabelTruth(obs)
 I_OnlyStoredIsShared == O!P_OnlyStoredIsShared(obs)
